@@ -130,6 +130,10 @@ fn session(p: &mut Prng, w: &mut World, pfx: &str, plan: &Plan, scripted: Option
     // A1-A3
         let r1 = w.exec(json!({"op":"sm2.kex.1","obj":oa,"out":s("m1.ra"),"rng":script(p, scripted.map(|x| x.2))}));
         let mut alive = class_of(&r1) == "Ok";
+        // a third of the time points travel as the un-normalised Jacobian struct exchange_1/2 returned
+        let jac = |p: &mut Prng| -> String { format!("jac:01{}", hex::encode(p.bytes(31))) };
+        let jac_ra = if scripted.is_none() && p.chance(1, 3) { Some(jac(p)) } else { None };
+        let jac_rb = if scripted.is_none() && p.chance(1, 3) { Some(jac(p)) } else { None };
         let mut via_ra = plan.via_ra;
         if alive && plan.tamper & 1 != 0 {
             if let Some(v) = tamper_point(p, w, &s("m1.ra"), plan.kind) {
@@ -138,7 +142,7 @@ fn session(p: &mut Prng, w: &mut World, pfx: &str, plan: &Plan, scripted: Option
         }
         // B1-B9
         if alive {
-            let r2 = w.exec(json!({"op":"sm2.kex.2","obj":ob,"ra":s("m1.ra"),"ra_via":via_ra,"out_rb":s("m2.rb"),"out_sb":s("m2.sb"),"reused":reused,"rng":script(p, scripted.map(|x| x.3))}));
+            let r2 = w.exec(json!({"op":"sm2.kex.2","obj":ob,"ra":s("m1.ra"),"ra_via":jac_ra.clone().filter(|_| via_ra == "struct" || plan.tamper & 1 == 0).unwrap_or(via_ra.to_string()),"out_rb":s("m2.rb"),"out_sb":s("m2.sb"),"reused":reused,"rng":script(p, scripted.map(|x| x.3))}));
             alive = class_of(&r2) == "Ok";
         }
         if alive {
@@ -153,7 +157,7 @@ fn session(p: &mut Prng, w: &mut World, pfx: &str, plan: &Plan, scripted: Option
                 tamper_hash(p, w, &s("m2.sb"), plan.kind);
             }
             // A4-A10
-            let r3 = w.exec(json!({"op":"sm2.kex.3","obj":oa,"rb":s("m2.rb"),"rb_via":via_rb,"sb":s("m2.sb"),"out_sa":s("m3.sa"),"reused":reused}));
+            let r3 = w.exec(json!({"op":"sm2.kex.3","obj":oa,"rb":s("m2.rb"),"rb_via":jac_rb.clone().filter(|_| via_rb == "struct" || plan.tamper & 2 == 0).unwrap_or(via_rb.to_string()),"sb":s("m2.sb"),"out_sa":s("m3.sa"),"reused":reused}));
             alive = class_of(&r3) == "Ok";
         }
         if alive {
